@@ -8,6 +8,7 @@ want() { [ -z "${PROPS:-}" ] || echo " $PROPS " | grep -q " $1 "; }
 for d in seeded/*/; do
   id=$(basename $d); prop=$(python3 -c "import json;print(json.load(open('$d/meta.json'))['property'])")
   want $prop || continue
+  [ -n "${FROM:-}" ] && [ "$id" \< "$FROM" ] && continue   # FROM=c11n resumes an interrupted sweep at that change
   out=$(tools/seed_eval.sh $d/patch.diff $prop 2>&1)
   if echo "$out" | grep -q "^VIOLATION"; then echo "DETECTED $id $prop $(echo "$out" | grep -c '^VIOLATION') signature(s)";
   elif echo "$out" | grep -q "PATCH-DOES-NOT-APPLY\|BUILD-FAILS\|did not finish\|BUILD-TROUBLE"; then echo "TROUBLE  $id $prop"; echo "$out" | tail -3;
